@@ -1,5 +1,6 @@
 import PnVerif.Model.Scs
 import PnVerif.Spec.InBounds
+import PnVerif.Model.IntraNode
 /-
   C15 correspondence driver.  One request per line on stdin, one answer per line on stdout.
 
@@ -7,6 +8,11 @@ import PnVerif.Spec.InBounds
         -> <checkSCS c64> <checkSCS exact> <InBounds 0|1> <checkSCS divForm (repaired check_EEDGE)>
     A strict classic isrec isread api begin xsz recsize numrecs nd shape.. S|SN.. C|CN.. T|TN..
         -> <checkSCS c64> <numrecs after a put> <n> <off_1> .. <off_n>      (offsets only when accepted)
+
+    F isrec begin xsz recsize nd shape.. S start.. C count.. T stride..        (intra-node aggregation: flatten_req)
+        -> p=<off:len,...  pairs of IntraNode.flattenReq> e=<element offsets of the request, Access.elemOff in request order>
+    M n off:len ...                                                          (the aggregator's sort/merge/pack/coalesce)
+        -> s=<off:len:buf,... sorted triples> a=<merged triples> f=<off:len,... file type>
 
   api: 1 var1, 2 vara, 3 vars, 4 varm.  For a record variable shape[0] is the current numrecs.
 -/
@@ -90,10 +96,65 @@ def doA (strict classic isrec isread api : String) (l : List String) : String :=
     | _, _, _, _, _ => "bad-op"
   | _ => "bad-op"
 
+def commaL (xs : List String) : String := if xs.isEmpty then "-" else String.intercalate "," xs
+
+def natVec (tag : String) (nd : Nat) (l : List String) : Option (List Nat × List String) :=
+  match l with
+  | t :: l' =>
+    if t != tag || l'.length < nd then none else
+    let xs := (l'.take nd).filterMap String.toNat?
+    if xs.length = nd then some (xs, l'.drop nd) else none
+  | [] => none
+
+def doF (l : List String) : String :=
+  match l with
+  | ir :: bg :: xs :: rs :: ndS :: l1 =>
+    match bg.toNat?, xs.toNat?, rs.toNat?, ndS.toNat? with
+    | some bg, some xs, some rs, some nd =>
+      let shape := (l1.take nd).filterMap String.toNat?
+      if shape.length != nd then "bad-op" else
+      match natVec "S" nd (l1.drop nd) with
+      | none => "bad-op"
+      | some (st, l2) =>
+        match natVec "C" nd l2 with
+        | none => "bad-op"
+        | some (ct, l3) =>
+          match natVec "T" nd l3 with
+          | none => "bad-op"
+          | some (sd, _) =>
+            let v : PnVerif.Access.VarLay := { begin := bg, xsz := xs, shape := shape, isRec := b ir, recsize := rs }
+            let ps := PnVerif.IntraNode.flattenReq v st ct sd
+            let es := (PnVerif.Access.enumIdx st ct sd).map (PnVerif.Access.elemOff v)
+            s!"p={commaL (ps.map (fun p => s!"{p.1}:{p.2}"))} e={commaL (es.map toString)}"
+    | _, _, _, _ => "bad-op"
+  | _ => "bad-op"
+
+def parseOL (s : String) : Option (Int × Int) :=
+  match s.splitOn ":" with
+  | [a, c] => match a.toInt?, c.toInt? with
+    | some a, some c => some (a, c)
+    | _, _ => none
+  | _ => none
+
+def doM (l : List String) : String :=
+  match l with
+  | _n :: rest =>
+    let ins := rest.filterMap parseOL
+    if ins.length != rest.length then "bad-op" else
+    let segs := PnVerif.IntraNode.mkSegs ins
+    let sorted := PnVerif.Merge.sortSegs segs
+    let ag := PnVerif.IntraNode.aggrPass1 sorted
+    let fp := PnVerif.IntraNode.filePairs ag
+    let sh := fun (s : PnVerif.Merge.Seg) => s!"{s.off}:{s.len}:{s.buf}"
+    s!"s={commaL (sorted.map sh)} a={commaL (ag.map sh)} f={commaL (fp.map (fun p => s!"{p.1}:{p.2}"))}"
+  | [] => "bad-op"
+
 def step (line : String) : String :=
   match (line.trimAscii.toString.splitOn " ").filter (· != "") with
   | "K" :: strict :: classic :: isrec :: isread :: api :: l => doK strict classic isrec isread api l
   | "A" :: strict :: classic :: isrec :: isread :: api :: l => doA strict classic isrec isread api l
+  | "F" :: l => doF l
+  | "M" :: l => doM l
   | _ => "bad-op"
 
 partial def loop (h : IO.FS.Stream) (out : IO.FS.Stream) : IO Unit := do
